@@ -269,6 +269,15 @@ func genC15(t *rapid.T) *CaseC15 {
 		} else {
 			c.IDs2[c.Bad-len(c.IDs)] = m
 		}
+		if tg.lists == 2 && label != "joined-entries" && rapid.IntRange(0, 3).Draw(t, "both") == 0 {
+			// the same malformed string in both arguments (an equality shortcut must not skip the validation)
+			if c.Bad < len(c.IDs) {
+				c.IDs2[rapid.IntRange(0, len(c.IDs2)-1).Draw(t, "bothAt")] = m
+			} else {
+				c.IDs[rapid.IntRange(0, len(c.IDs)-1).Draw(t, "bothAt")] = m
+			}
+			c.Edit += "+same-in-both-arguments"
+		}
 		// valid zoom arguments near the valid IDs' own zooms
 		if tg.quadkey {
 			c.Z = []int64{clamp64(seed.H+rapid.Int64Range(-1, 1).Draw(t, "zq"), 1, 31), clamp64(seed.V+rapid.Int64Range(-1, 1).Draw(t, "zv"), 0, 35)}
